@@ -404,6 +404,49 @@ pub fn run_churn(ctx: &Ctx) {
     );
 }
 
+/// one TLS connection: a handshake record is begun, then the stream continues in segments of 1..4 bytes
+pub fn run_tiny_segments(ctx: &Ctx) {
+    let n = ctx.tier.pick(30_000usize, 400_000);
+    ctx.run_indexed(
+        "tls-tiny-segments",
+        "one connection through the TLS analyzer: a first segment that begins a handshake record (declared length 40 / 300 / 16000 / 65535), then N segments of 1..4 payload bytes (quick N = 30000, thorough 400000); oracle: counting allocator - retained bytes stay below 96 KiB and do not grow between the first quarter and the end once the declared record length has been delivered; non-trivial: every configuration",
+        true,
+        4,
+        |i, st| {
+            let declared = [40u16, 300, 16000, 65535][i as usize];
+            st.evals += 1;
+            st.nontrivial(&declared);
+            let mut t = TlsState::new(16);
+            let ip = Ip::V4(Ip4 { src: [10, 3, 0, 1], dst: [10, 3, 0, 2], ..Ip4::default() });
+            let mut seq = 1000u32;
+            let mut send = |t: &mut TlsState, payload: Vec<u8>| {
+                let tcp = Tcp { sport: 40000, dport: 443, seq, ack: 1, flags: fr::ACK | fr::PSH, payload: payload.clone(), ..Tcp::default() };
+                seq = seq.wrapping_add(payload.len() as u32);
+                let f = frame(Link::Ether, &ip, &tcp);
+                let _ = t.feed(&f);
+            };
+            let base = alloc::live();
+            send(&mut t, vec![0x16, 0x03, 0x03, (declared >> 8) as u8, declared as u8, 0x01, 0x00, 0x00, 0x24]);
+            let mut live = Vec::with_capacity(n);
+            for k in 0..n {
+                crate::engine::watchdog_touch();
+                send(&mut t, vec![0xAB; 1 + k % 4]);
+                live.push(alloc::live() - base);
+            }
+            // the vector `live` itself was allocated after the baseline: subtract it
+            let own = (n * std::mem::size_of::<i64>()) as i64;
+            let after_record = (declared as usize * 2 / 5 + 10).min(n - 60); // segments needed to deliver the declared length (2.5 bytes each on average)
+            let q = *live[(n / 4).max(after_record)..(n / 4).max(after_record) + 50].iter().max().unwrap() - own;
+            let e = *live[n - 50..].iter().max().unwrap() - own;
+            let detail = format!("declared record length {declared}, {n} segments of 1..4 bytes: live bytes after the record could be complete {q}, at the end {e}");
+            st.sample(|| json!({"measured": detail}));
+            if e > q + 16 * 1024 || e > 96 * 1024 {
+                st.fail(Fail::new("Tls:tiny-segments:retained-memory-grows-with-history", detail), json!({"declared": declared}));
+            }
+        },
+    );
+}
+
 /// per-worker bound: worker pools configured with a small capacity, many connections holding unfinished state at once
 pub fn run_pool_memory(ctx: &Ctx) {
     use crate::pool::{run_pool, PoolCfg, PoolKind};
